@@ -116,6 +116,12 @@ Fixpoint wfk (e : kexpr) (x y : list R) : Prop :=
     dims_ok ad (length y) /\ wfk l (sel ad x) (sel ad y) /\ 0 < keval l (sel ad x) (sel ad y)
   end.
 
+(* the active_dims of the root node *)
+Definition dims_of (e : kexpr) : dims :=
+  match e with
+  | KBase _ _ ad | KAdd _ _ ad | KAddC _ _ ad | KMul _ _ ad | KMulC _ _ ad | KPow _ _ ad => ad
+  end.
+
 (* the coordinates a kernel expression can depend on (relative to width n) *)
 Definition agree_on (idx : list nat) (x x' : list R) : Prop :=
   forall i, In i idx -> nth i x 0 = nth i x' 0.
